@@ -1,7 +1,9 @@
 (** C07 — Split, join, cast and rounding transform values exactly and only their target.
     Statements only; proofs in Proofs/StringLaws.v. *)
 From Coq Require Import List ZArith NArith Bool.
-From RRSS Require Import Base.Outcome Base.Chars Base.F64 Base.F64Text Exec.Val Proofs.StringLaws.
+From Coq Require Import Floats.SpecFloat.
+From RRSS Require Import Base.Outcome Base.Chars Base.F64 Base.F64Text Exec.Val Exec.Ops Front.Ast Exec.Env Exec.Interp.
+From RRSS Require Import Proofs.StringLaws Proofs.RoundLaws Proofs.InterpInv Proofs.InterpLaws.
 Import ListNotations.
 
 (** cut then join with the same delimiter (or none) restores the string: all strings, all delimiters *)
@@ -60,6 +62,65 @@ Theorem C07_cast_codepoint :
   if ((0 <=? i)%Z && (i <=? u32_max)%Z) && is_scalar_value (Z.to_N i)
   then Ok (VStr [Z.to_N i]) else Err (ConvertingNumberToCharacterFailed n).
 Proof. exact cast_codepoint. Qed.
+
+(** turn down / up / round pick the right integer: for a finite number with fraction bits (value
+    [signed s m / 2^k]) the result is the float of the integer z with
+      z <= value < z + 1 (down),  z - 1 < value <= z (up),  |value - z| <= 1/2 with ties away from zero (round),
+    stated in exact integer arithmetic on the mantissa; numbers without fraction bits, zeros, infinities and
+    NaN are returned unchanged *)
+Theorem C07_round_down_spec :
+  forall s m k, exists z, ffloor (S754_finite s m (Zneg k)) = f_of_mag s (Z.abs z) /\
+    (z * 2 ^ Zpos k <= signed s (Zpos m) < (z + 1) * 2 ^ Zpos k)%Z /\ ((z <= 0)%Z <-> s = true \/ z = 0%Z).
+Proof. exact ffloor_spec. Qed.
+
+Theorem C07_round_up_spec :
+  forall s m k, exists z, fceil (S754_finite s m (Zneg k)) = f_of_mag s (Z.abs z) /\
+    ((z - 1) * 2 ^ Zpos k < signed s (Zpos m) <= z * 2 ^ Zpos k)%Z.
+Proof. exact fceil_spec. Qed.
+
+Theorem C07_round_nearest_spec :
+  forall s m k, exists z, fround (S754_finite s m (Zneg k)) = f_of_mag s (Z.abs z) /\
+    (2 * Z.abs (signed s (Zpos m) - z * 2 ^ Zpos k) <= 2 ^ Zpos k)%Z /\
+    ((2 * Z.abs (signed s (Zpos m) - z * 2 ^ Zpos k) = 2 ^ Zpos k)%Z -> (Z.abs z * 2 ^ Zpos k > Zpos m)%Z).
+Proof. exact fround_spec. Qed.
+
+Theorem C07_round_fixed :
+  forall x, match x with S754_finite _ _ (Zneg _) => True | _ => ffloor x = x /\ fceil x = x /\ fround x = x end.
+Proof. exact round_fixed. Qed.
+
+(** with an `into` destination the operand is only read and the result goes to the destination; without one
+    the operand is rewritten in place by a single write visit (so a subscript or pronoun operand is evaluated once) *)
+Theorem C07_mutation_into_clause :
+  forall prof f op operand d param xs e,
+  exec_stmt prof (S f) (SMutation op operand (Some d) param) xs e =
+  after_tick e (fun e =>
+    let+ (pv, e1) := match param with
+                     | Some px => let+ (v, e') := produce_expr prof f px e in XOk (Some v) e'
+                     | None => XOk None e
+                     end in
+    let+ (v, e2) := produce_primary prof f operand e1 in
+    let+ (v', e3) := lift_val (apply_mutation op v pv) e2 in
+    let+ (_, e4) := settle (write_primary prof f (WAssign v') (lhs_as_primary d) e3) in
+    XOk xs e4).
+Proof. exact mutation_into_clause. Qed.
+
+Theorem C07_mutation_in_place_clause :
+  forall prof f op operand param xs e,
+  exec_stmt prof (S f) (SMutation op operand None param) xs e =
+  after_tick e (fun e =>
+    let+ (pv, e1) := match param with
+                     | Some px => let+ (v, e') := produce_expr prof f px e in XOk (Some v) e'
+                     | None => XOk None e
+                     end in
+    let+ (_, e2) := settle (write_primary prof f (WMutate op pv) operand e1) in
+    XOk xs e2).
+Proof. exact mutation_in_place_clause. Qed.
+
+Theorem C07_rounding_clause :
+  forall prof f dir operand xs e,
+  exec_stmt prof (S f) (SRounding dir operand) xs e =
+  after_tick e (fun e => let+ (_, e1) := settle (write_expr prof f (WRound dir) operand e) in XOk xs e1).
+Proof. exact rounding_clause. Qed.
 
 Example C07_example :
   v_split (VStr (lit "aXbXXc")) (Some (VStr (lit "X"))) = Ok (VArr [VStr (lit "a"); VStr (lit "b"); VStr []; VStr (lit "c")] []) /\
